@@ -146,12 +146,16 @@ func worker(c *fw.Ctx) *fw.Stats {
 		st.Count("discovery.probe_evaluations", int64(disc.Tried))
 		st.Count("discovery.iterating_calls", int64(len(disc.Calls)))
 		st.Count("discovery.callback_calls", int64(len(disc.Callbacks)))
+		st.Count("discovery.calls_iterating_elements_of_their_argument", int64(len(disc.Nested)))
 		st.Count("discovery.iterating_operators", int64(len(disc.Ops)))
 		var names []string
 		for _, d := range disc.Calls {
 			names = append(names, d.Tmpl)
 		}
 		for _, d := range disc.Callbacks {
+			names = append(names, d.Tmpl)
+		}
+		for _, d := range disc.Nested {
 			names = append(names, d.Tmpl)
 		}
 		for _, d := range disc.Ops {
